@@ -31,6 +31,7 @@ type c03Op struct {
 	Fault  bool    `json:"loader_fault,omitempty"`
 	ExecOf int     `json:"exec_of,omitempty"`
 	// derived
+	Dir       string   `json:"dir,omitempty"`
 	Main      string   `json:"main,omitempty"`
 	MainName  string   `json:"main_name,omitempty"`
 	MainTags  []string `json:"-"`
@@ -45,6 +46,7 @@ type c03Op struct {
 type c03Spec struct {
 	NSets  int               `json:"sets"`
 	Loader string            `json:"loader"`
+	Shared bool              `json:"sets_share_one_loader_object"`
 	Files  map[string]string `json:"files"`
 	Ops    []c03Op           `json:"ops"`
 	Pool   []string          `json:"ban_pool"`
@@ -441,6 +443,7 @@ func c03Gen(tp *Tapes) *c03Spec {
 	g := tp.Gen
 	sp := &c03Spec{NSets: 1 + g.Draw(2), Files: map[string]string{}}
 	sp.Loader = []string{"virt", "http"}[g.Draw(2)]
+	sp.Shared = g.Draw(2) == 1
 	var allTags []string
 	for _, t := range pongo2.VerifRegisteredTags() {
 		if _, ok := c03TagSnippets[t]; ok {
@@ -492,6 +495,7 @@ func c03Gen(tp *Tapes) *c03Spec {
 			op.Kind = "exec"
 			op.ExecOf = creates[g.Draw(len(creates))]
 			op.Set = sp.Ops[op.ExecOf].Set
+			op.Dir = sp.Ops[op.ExecOf].Dir
 		default:
 			op.Kind = "create"
 			op.Via = []string{"FromString", "FromBytes", "FromFile", "FromCache", "RenderTemplateString", "RenderTemplateBytes", "RenderTemplateFile"}[g.Draw(7)]
@@ -529,7 +533,11 @@ func c03Gen(tp *Tapes) *c03Spec {
 				}
 			}
 			op.Use = u
-			c03Build(&op, fmt.Sprintf("op%d", i), sp.Files)
+			// identical uses share their files (also across sets): "u<hash>/..."
+			uh := newHasher()
+			uh.str(fmt.Sprintf("%v|%s|%s|%v|%v", u.IsTag, u.Target, u.Route, u.Wraps, u.Control))
+			op.Dir = fmt.Sprintf("u%x", uint64(uh)&0xffffff)
+			c03Build(&op, op.Dir, sp.Files)
 			if (op.Via == "FromFile" || op.Via == "FromCache" || op.Via == "RenderTemplateFile") && f.Draw(5) == 4 {
 				op.Fault = true
 			}
@@ -588,7 +596,7 @@ func (s *c03Side) do(i int, op c03Op, withBans bool) (r *c03Res) {
 			r.Created = false
 		}
 	}()
-	dir := fmt.Sprintf("op%d", i)
+	dir := op.Dir
 	switch op.Kind {
 	case "bantag":
 		if withBans {
@@ -604,7 +612,7 @@ func (s *c03Side) do(i int, op c03Op, withBans bool) (r *c03Res) {
 			return r
 		}
 		r.Created = true
-		out, err := tpl.Execute(c03Ctx(s.w, fmt.Sprintf("op%d", op.ExecOf)))
+		out, err := tpl.Execute(c03Ctx(s.w, op.Dir))
 		r.Out, r.ExecErr = out, errStr(err)
 	case "create":
 		s.w.Plan = nil
@@ -683,8 +691,13 @@ func (c03Checker) Run(tp *Tapes, opt RunOpt) *Outcome {
 	mk := func() *c03Side {
 		w := NewWorld([]*DiskSpec{disk})
 		s := &c03Side{w: w, tpls: map[int]*pongo2.Template{}}
+		shared := w.MakeLoader(0, LoaderSpec{Kind: sp.Loader, Disk: 0})
 		for i := 0; i < sp.NSets; i++ {
-			s.sets = append(s.sets, pongo2.NewSet(fmt.Sprintf("S%d", i), w.MakeLoader(i, LoaderSpec{Kind: sp.Loader, Disk: 0})))
+			l := shared
+			if !sp.Shared {
+				l = w.MakeLoader(i, LoaderSpec{Kind: sp.Loader, Disk: 0})
+			}
+			s.sets = append(s.sets, pongo2.NewSet(fmt.Sprintf("S%d", i), l))
 		}
 		return s
 	}
@@ -693,7 +706,7 @@ func (c03Checker) Run(tp *Tapes, opt RunOpt) *Outcome {
 		out.probe("two_sets")
 	}
 	ph := newHasher()
-	ph.str(fmt.Sprintf("%d%s", sp.NSets, sp.Loader))
+	ph.str(fmt.Sprintf("%d%s%v", sp.NSets, sp.Loader, sp.Shared))
 	for _, op := range sp.Ops {
 		ph.str(fmt.Sprintf("%s|%d|%s|%s|%v|%d|%s", op.Kind, op.Set, op.Target, op.Via, op.Fault, op.ExecOf, op.Main))
 	}
@@ -784,16 +797,6 @@ func (c03Checker) Run(tp *Tapes, opt RunOpt) *Outcome {
 				after = probeSnapshot(src.Use.Target)
 			}
 			tres := twin.do(i, op, false)
-			if src.Use != nil && src.Use.Target == "random" && !src.Use.Control {
-				// documented to depend on randomness: keep it out of the log and the comparison
-				if bannedNow := c03TargetBanned(m.tags, m.filts, src.Use); !bannedNow {
-					for _, r := range []*c03Res{res, tres} {
-						if r.Created {
-							r.Out, r.ExecErr, r.Gets = "(random)", "", nil
-						}
-					}
-				}
-			}
 			for k, v := range sys.w.Fired {
 				out.Faults[k] += v
 			}
@@ -806,6 +809,14 @@ func (c03Checker) Run(tp *Tapes, opt RunOpt) *Outcome {
 			bannedLazy := inSet(m.tags, src.LazyTags)
 			if bannedLazy == "" {
 				bannedLazy = inSet(m.filts, src.LazyFilts)
+			}
+			if src.Use.Target == "random" && !src.Use.Control && bannedMain == "" && bannedLazy == "" {
+				// documented to depend on randomness: keep its output out of the log and the comparison
+				for _, r := range []*c03Res{res, tres} {
+					if r.Created {
+						r.Out, r.ExecErr, r.Gets = "(random)", "", nil
+					}
+				}
 			}
 			trace = append(trace, map[string]any{"op": i, "kind": op.Kind, "set": op.Set, "via": op.Via, "use": src.Use, "main": src.Main, "fault": op.Fault,
 				"banned_in_main": bannedMain, "banned_in_lazy": bannedLazy, "result": res, "twin": tres})
